@@ -6,6 +6,7 @@ import (
 	"context"
 	"errors"
 	"fmt"
+	"net"
 	"strconv"
 	"sync"
 	"sync/atomic"
@@ -18,9 +19,9 @@ import (
 )
 
 var reuseKinds = []simnet.DeadlineKind{
-	{Name: "query", Min: 2 * time.Second, Max: 20 * time.Second},  // reuseConnQueryTimeout = 6 s
-	{Name: "idle", Min: 4 * time.Minute, Max: 7 * time.Minute},    // IdleTimeout = 5 min below
-	{Name: "short", Min: -time.Hour, Max: 2 * time.Second},        // anything else is logged as it is
+	{Name: "query", Min: 2 * time.Second, Max: 20 * time.Second}, // reuseConnQueryTimeout = 6 s
+	{Name: "idle", Min: 4 * time.Minute, Max: 7 * time.Minute},   // IdleTimeout = 5 min below
+	{Name: "short", Min: -time.Hour, Max: 2 * time.Second},       // anything else is logged as it is
 }
 
 const reuseIdle = 5 * time.Minute
@@ -173,6 +174,7 @@ func (r *reuseRunner) step(s Step) (bool, string) {
 			return false, "cancel of a call that was not started"
 		}
 		r.rec.Log("Cancel", "c", c)
+		cl.cancelled = true
 		cl.cancel()
 	case "Dial":
 		if !poll(stepWait, func() bool { return r.dialer.Count() >= d }) {
@@ -410,6 +412,66 @@ func (r *reuseRunner) step(s Step) (bool, string) {
 	return true, ""
 }
 
+// patient: what must happen WITHOUT further help from the environment.  A cancelled call returns; once
+// transport Close has returned every call returns and every pending dial ends through its context.  The
+// only thing done here is what a socket would do by itself: a Write that the harness still holds fails
+// on a closed connection, and a held Write of a cancelled call is let through.
+func (r *reuseRunner) patient() (hang []string) {
+	closeReturned := func() bool {
+		select {
+		case <-r.closeDone:
+			return true
+		default:
+			return false
+		}
+	}
+	isDone := func(cl *call) bool {
+		select {
+		case <-cl.done:
+			return true
+		default:
+			return false
+		}
+	}
+	check := func() []string {
+		var out []string
+		cr := closeReturned()
+		for _, cl := range r.cs.all() {
+			if isDone(cl) {
+				continue
+			}
+			if cr {
+				out = append(out, fmt.Sprintf("call %d pending after Close", cl.id))
+			} else if cl.cancelled {
+				out = append(out, fmt.Sprintf("cancelled call %d", cl.id))
+			}
+		}
+		if cr {
+			for _, p := range r.dialer.Pending() {
+				out = append(out, fmt.Sprintf("dial %d pending after Close", p.ID))
+			}
+		}
+		return out
+	}
+	poll(patientWait, func() bool {
+		for _, cn := range r.allConns() {
+			for _, op := range cn.Pending() {
+				if op.Kind != simnet.OpWrite {
+					continue
+				}
+				if cn.IsClosed() {
+					op.Complete(net.ErrClosed)
+				} else if cl := r.cs.get(noteInt(op, "c")); cl != nil && cl.cancelled {
+					op.Complete(nil)
+				}
+			}
+		}
+		hang = check()
+		return len(hang) == 0
+	})
+	return hang
+}
+
 // drain releases everything that is pending with the default policy (dials fail, writes succeed, virtual
 // time advances by 30 s so that every armed query deadline fires) until all calls have returned.
 func (r *reuseRunner) drain() (hang []string) {
@@ -487,7 +549,8 @@ func runReuse(idx int, sc Script) Result {
 			break
 		}
 	}
-	res.Hang = r.drain()
+	res.Hang = r.patient()
+	res.Hang = append(res.Hang, r.drain()...)
 	// transport Close (if the script did not), then: later calls fail immediately, everything is released
 	r.startClose()
 	deadline := time.Now().Add(hangWait)
@@ -502,7 +565,10 @@ func runReuse(idx int, sc Script) Result {
 	if !waitDone(r.closeDone, time.Millisecond) {
 		res.Hang = append(res.Hang, "transport Close")
 	}
-	res.Hang = append(res.Hang, r.drain()...) // calls that were pending when Close was called
+	if len(res.Hang) == 0 {
+		res.Hang = append(res.Hang, r.patient()...) // calls / dials that were pending when Close was called
+	}
+	r.drain()
 	if len(res.Hang) == 0 && !sc.NoPostCall {
 		r.startCall(postCall)
 		if !waitDone(r.cs.get(postCall).done, hangWait) {
